@@ -1224,7 +1224,7 @@ def correspond(ctx):
     logging.disable(logging.CRITICAL)
     fails = []
     try:
-        n_enc = 800 if ctx.quick() else 60000
+        n_enc = 600 if ctx.quick() else 60000
         enc_cases, dec_cases = [], []
         for i in range(n_enc):
             prot = rng.random() < 0.35
